@@ -101,6 +101,21 @@ class SymFrame:
     def copy(self, deep=True):
         return SymFrame(self)
 
+    @property
+    def loc(self):
+        return _Loc(self)
+
+    def dropna(self, subset=None, how="any"):
+        cols = subset or list(self.cols)
+        keep = [j for j in range(len(self)) if not any(isinstance(self.cols[c].d[j], _NA) for c in cols)]
+        out = SymFrame()
+        for c, a in self.cols.items():
+            out.cols[c] = SymArray([a.d[j] for j in keep], a.dtype_tag)
+        return out
+
+    def reset_index(self, drop=False):
+        return self.copy()
+
     def __copy__(self):
         return self.copy()
 
@@ -142,9 +157,42 @@ def notna(x):
     return x._map(lambda v: not isinstance(v, _NA), "bool")
 
 
+def isna(x):
+    x = asarray(x)
+    return x._map(lambda v: isinstance(v, _NA), "bool")
+
+
+class _Loc:
+    """DataFrame.loc[row mask] / .loc[row mask, column list]."""
+
+    def __init__(self, frame):
+        self.frame = frame
+
+    def __getitem__(self, k):
+        cols = None
+        if isinstance(k, tuple):
+            k, cols = k
+        out = self.frame[k] if not (isinstance(k, slice) and k == slice(None)) else self.frame.copy()
+        if cols is not None:
+            out = out[cols] if isinstance(cols, list) else out[cols]
+        return out
+
+
 class _NA:
+    """A missing value (NaN): comparisons are false, arithmetic propagates it."""
+    __sx_nan__ = True
+
     def __repr__(self):
         return "NA"
+
+    def _prop(self, *a, **k):
+        return self
+    __add__ = __radd__ = __sub__ = __rsub__ = __mul__ = __rmul__ = __truediv__ = __rtruediv__ = __neg__ = __abs__ = _prop
+    __pow__ = __rpow__ = _prop
+
+    def _false(self, o):
+        return False
+    __lt__ = __le__ = __gt__ = __ge__ = _false
 
 
 NA = _NA()
@@ -154,3 +202,6 @@ class PD:
     DataFrame = SymFrame
     concat = staticmethod(concat)
     notna = staticmethod(notna)
+    isna = staticmethod(isna)
+    notnull = staticmethod(notna)
+    isnull = staticmethod(isna)
